@@ -304,11 +304,17 @@ Definition mail_param (cfg : config) (k v : bytes) (o : mail_opts) (bm : bool)
     | PSyntax => inr (501, (5, 5, 4), bs "Unable to parse SIZE as an integer")%Z
     end
   else if is "SMTPUTF8"%string then
-    if cf_utf8 cfg then inl (mkMO (mo_body o) (mo_size o) (mo_requiretls o) true (mo_ret o) (mo_envid o) (mo_auth o), bm)
-    else inr (504, (5, 5, 4), bs "SMTPUTF8 is not implemented")%Z
+    if negb (cf_utf8 cfg) then inr (504, (5, 5, 4), bs "SMTPUTF8 is not implemented")%Z
+    else match v with
+         | [] => inl (mkMO (mo_body o) (mo_size o) (mo_requiretls o) true (mo_ret o) (mo_envid o) (mo_auth o), bm)
+         | _ => inr (501, (5, 5, 4), bs "SMTPUTF8 takes no value")%Z
+         end
   else if is "REQUIRETLS"%string then
-    if cf_requiretls cfg then inl (mkMO (mo_body o) (mo_size o) true (mo_utf8 o) (mo_ret o) (mo_envid o) (mo_auth o), bm)
-    else inr (504, (5, 5, 4), bs "REQUIRETLS is not implemented")%Z
+    if negb (cf_requiretls cfg) then inr (504, (5, 5, 4), bs "REQUIRETLS is not implemented")%Z
+    else match v with
+         | [] => inl (mkMO (mo_body o) (mo_size o) true (mo_utf8 o) (mo_ret o) (mo_envid o) (mo_auth o), bm)
+         | _ => inr (501, (5, 5, 4), bs "REQUIRETLS takes no value")%Z
+         end
   else if is "BODY"%string then
     let V := to_upper v in
     if bytes_eqb V (bs "BINARYMIME") then
